@@ -350,7 +350,9 @@ class Gen:
             mask = r.choice([0x8000, 0x10000])
             self.usermap = (lo, hi, mask)
             base = 0x10000 - mask
-            out.append(("map", f".map identifier=1 bank_range=0x{lo:x},0x{hi:x} addr_range=0x{base:x},0xffff mask=0x{mask:x}"))
+            # the declared addr_range is not what places the window (the mask is): it is varied independently
+            ar = r.choice([base, base, 0x8000, 0x0, 0x4000])
+            out.append(("map", f".map identifier=1 bank_range=0x{lo:x},0x{hi:x} addr_range=0x{ar:x},0xffff mask=0x{mask:x}"))
             out.append(("map", ".map identifier=2 bank_range=0x7e,0x7f addr_range=0,0xffff mask=0x10000 writable=1"))
         ctx = Ctx()
         for _ in range(r.randrange(0, 3) if self.f.get("macros", True) else 0):
